@@ -36,11 +36,15 @@ def _alarm(signum, frame):
 
 def innermost_site(tb):
     """module.function of the innermost asn1tools frame of a traceback."""
+    # (walks the frames itself: traceback.extract_tb would read the source files into linecache, a one-off
+    # allocation of megabytes that the memory accounting of C08 would charge to whichever call raises first)
     site = ''
-    for fs in traceback.extract_tb(tb):
-        if '/asn1tools/' in fs.filename:
-            mod = fs.filename.split('/asn1tools/')[-1][:-3].replace('/', '.')
-            site = '%s.%s' % (mod, fs.name)
+    while tb is not None:
+        code = tb.tb_frame.f_code
+        if '/asn1tools/' in code.co_filename:
+            mod = code.co_filename.split('/asn1tools/')[-1][:-3].replace('/', '.')
+            site = '%s.%s' % (mod, code.co_name)
+        tb = tb.tb_next
     return site
 
 
